@@ -110,19 +110,29 @@ def generate(rng, tier):
     atoms = ["a", "b", "-", "/", "é", "\\d", "\\w", "\\s", "\\S", "\\D", "\\W", ".", "[ab]", "[^/]", "[a-c-]",
              "[0-9a-fA-F]", "[\\d_]", "x", "[A-Z]"]
 
-    def rand_re(depth=0):
+    def rand_re(depth=0, quantified=False):
+        """`quantified`: already under a repetition - no further repetition inside (a nested one over a
+        sub-expression that can match the empty string makes every backtracking matcher exponential)"""
         r = rng.random()
+        group = False
         if depth > 2 or r < 0.4:
             a = rng.choice(atoms)
-        elif r < 0.6:
-            a = "(" + rand_re(depth + 1) + ")"
-        elif r < 0.7:
-            a = "(?P<g%d>%s)" % (rng.randrange(1000), rand_re(depth + 1))
         elif r < 0.8:
-            a = "(?:" + rand_re(depth + 1) + "|" + rand_re(depth + 1) + ")"
+            group = True
+            rep = (not quantified) and rng.random() < 0.35
+            inner = lambda: rand_re(depth + 1, quantified or rep)      # noqa: E731
+            if r < 0.6:
+                a = "(" + inner() + ")"
+            elif r < 0.7:
+                a = "(?P<g%d>%s)" % (rng.randrange(1000), inner())
+            else:
+                a = "(?:" + inner() + "|" + inner() + ")"
+            if rep:
+                a += rng.choice(["*", "+", "?", "{2}", "{1,2}", "{0,}", "*?", "+?", "??"])
+            return a
         else:
-            return rand_re(depth + 1) + rand_re(depth + 1)
-        if rng.random() < 0.35:
+            return rand_re(depth + 1, quantified) + rand_re(depth + 1, quantified)
+        if not quantified and rng.random() < 0.35:
             a += rng.choice(["*", "+", "?", "{2}", "{1,2}", "{0,}", "*?", "+?", "??"])
         return a
     for _ in range(1500 if tier == "thorough" else 300):
